@@ -224,7 +224,8 @@ def mroOf (cs : List Cls) (b : Nat) : List Nat :=
 /-- the hierarchy as the collectors see it: the MRO (class ids) of every class -/
 abbrev Mros := Nat → List Nat
 
-/-- `getattr(base_cls, "__attrs_attrs__", [])`: Python resolves the attribute along `base_cls.__mro__`;
+/-- `getattr(base_cls, "__attrs_attrs__", [])` (legacy collector, `has`): Python resolves the attribute
+    along `base_cls.__mro__`;
     `tbl[m] = some t` iff class `m` has its own `__attrs_attrs__` -/
 def getattrAttrs (M : Mros) (tbl : Table) (b : Nat) : List Attr :=
   match (M b).findSome? (fun m => (tbl[m]?).join) with
@@ -233,9 +234,17 @@ def getattrAttrs (M : Mros) (tbl : Table) (b : Nat) : List Attr :=
 
 def inherit (a : Attr) : Attr := { a with inherited := true }
 
-/-- what the first loop of `_collect_base_attrs` appends for one base class -/
-def expose (M : Mros) (tbl : Table) (taken : List String) (b : Nat) : List Attr :=
-  ((getattrAttrs M tbl b).filter (fun a => !(a.inherited || taken.contains a.name))).map inherit
+/-- `base_cls.__dict__.get("__attrs_attrs__", ())`: the tuple the class owns (nothing for a plain class) -/
+def ownTuple (tbl : Table) (b : Nat) : List Attr :=
+  match (tbl[b]?).join with
+  | some l => l
+  | none => []
+
+/-- what the first loop of `_collect_base_attrs` appends for one base class: it reads the class's *own*
+    tuple (a plain class resolves `__attrs_attrs__` from its attrs base, which is visited itself).
+    `M` is kept for symmetry with the legacy collector, which still resolves with `getattr`. -/
+def expose (_M : Mros) (tbl : Table) (taken : List String) (b : Nat) : List Attr :=
+  ((ownTuple tbl b).filter (fun a => !(a.inherited || taken.contains a.name))).map inherit
 
 /-- first loop of `_collect_base_attrs`: `for base_cls in reversed(cls.__mro__[1:-1])` -/
 def mroGather (M : Mros) (tbl : Table) (taken : List String) (mroTail : List Nat) : List Attr :=
